@@ -22,6 +22,7 @@ from ..can import world as W
 from ..core import worker
 from ..core.budget import HangVerdict, InstrBudget
 from ..core.evlog import EventLog, exc_sig, exc_site
+from ..core.envsim import environment
 from ..core.seeds import Streams, h64, weighted
 from ..core.shrink import ShrinkBudget, ddmin_list, shrink_each
 
@@ -30,7 +31,7 @@ META: Dict[str, Any] = {
     "level": "exploration",
     "pools": [{"backend": "c"}, {"backend": "py"}, {"backend": "c", "optimize": 1}],
     "tiers": {
-        "quick": {"runs": 7000, "chunk": 60, "wall": 75, "chunk_wall": 400},
+        "quick": {"runs": 7000, "chunk": 60, "wall": 240, "chunk_wall": 400},
         "thorough": {"runs": 400000, "chunk": 150, "wall": 1200, "chunk_wall": 900},
     },
     "selftest_runs": 4,
@@ -338,17 +339,21 @@ def build_corpus(ascii_tails: bool = False, budget: Optional[InstrBudget] = None
                 for pdu in found:
                     # is it also decodable through the layer in isolation? (precondition of
                     # the liveness clause: only such PDUs are used for the final exchange)
+                    # Judged with warnings escalated: a PDU that decodes with a warning (e.g. a
+                    # constant that the example values got wrong) is not "well-formed" enough.
                     layer_ok = False
                     try:
-                        if kind == "rq":
-                            msgs = layer.decode(pdu)
-                            layer_ok = len(msgs) >= 1 and msgs[0].coding_object is not None
-                        else:
-                            rq_pdu = next((bytes.fromhex(x["pdu"]) for x in ents
-                                           if x["svc"] == svc.short_name and x["kind"] == "rq" and x["layer_ok"]), None)
-                            if rq_pdu is not None:
-                                msgs = layer.decode_response(pdu, rq_pdu)
-                                layer_ok = len(msgs) >= 1 and all(m.coding_object is not None for m in msgs)
+                        with environment({"warnings": "error"}):
+                            if kind == "rq":
+                                msgs = layer.decode(pdu)
+                                layer_ok = len(msgs) >= 1 and msgs[0].coding_object is not None
+                            else:
+                                rq_pdu = next((bytes.fromhex(x["pdu"]) for x in ents
+                                               if x["svc"] == svc.short_name and x["kind"] == "rq"
+                                               and x["layer_ok"]), None)
+                                if rq_pdu is not None:
+                                    msgs = layer.decode_response(pdu, rq_pdu)
+                                    layer_ok = len(msgs) >= 1 and all(m.coding_object is not None for m in msgs)
                     except Exception:  # noqa: BLE001
                         layer_ok = False
                     ents.append({"svc": svc.short_name, "co": co.short_name, "kind": kind, "pdu": pdu.hex(),
@@ -393,6 +398,14 @@ def mutate_family(r, base: bytes, alphabet: List[int], sub_all_positions: bool) 
 
 
 def gen(rs: int, index: int, tier: str) -> Dict[str, Any]:
+    t = gen_(rs, index, tier)
+    # environment variation: one run in six executes with warnings escalated to exceptions
+    if Streams(rs).rng("env").random() < 1 / 6:
+        t["env"] = {"warnings": "error"}
+    return t
+
+
+def gen_(rs: int, index: int, tier: str) -> Dict[str, Any]:
     S = Streams(rs)
     r = S.rng("cfg")
     names = STATE["layer_names"]
@@ -548,6 +561,8 @@ def run_check(layer, lname: str, chk: List[Any]) -> Tuple[str, Any]:
     pdu: Any = bytes.fromhex(pdu_hex)
     if (len(pdu) + (pdu[0] if pdu else 0)) % 3 == 0:
         pdu = bytearray(pdu)  # transports hand over bytearrays as often as bytes (python-can does)
+    # (memoryview PDUs are outside the contract: the pinned tree itself fails on them, e.g.
+    # MinMaxLengthType uses .find() and DecodeState reverses slices - see DESIGN.md section 16)
     budget: InstrBudget = STATE["budget"]
     budget.arm(INSTR_LIMIT)
     try:
@@ -726,10 +741,16 @@ def execute_conv(trace: Dict[str, Any], log: EventLog) -> Dict[str, Any]:
 def execute(trace: Dict[str, Any]) -> Dict[str, Any]:
     log = EventLog()
     log.ev("sim", "config", {"mode": trace["mode"], "layer": trace["layer"]})
-    if trace["mode"] == "pdu":
-        r = execute_pdu(trace, log)
-    else:
-        r = execute_conv(trace, log)
+    env = trace.get("env")
+    if env:
+        log.ev("sim", "env", env)
+    with environment(env):
+        if trace["mode"] == "pdu":
+            r = execute_pdu(trace, log)
+        else:
+            r = execute_conv(trace, log)
+    if env:
+        r["faults"]["env_warnings_" + str(env.get("warnings"))] = 1
     seen = set()
     uniq = []
     for v in r["violations"]:
@@ -768,6 +789,10 @@ def trace_size(trace: Dict[str, Any]) -> int:
 
 def shrink(trace: Dict[str, Any], still_fails) -> Dict[str, Any]:
     budget = ShrinkBudget(600)
+    if trace.get("env"):
+        plain = {k: v for k, v in trace.items() if k != "env"}
+        if still_fails(plain):
+            trace = plain
     if trace["mode"] == "pdu":
         checks = ddmin_list(trace["checks"], lambda c: still_fails({**trace, "checks": c}), budget)
 
